@@ -863,33 +863,25 @@ impl StorageEngine {
                     if len == 0 {
                         Vec::new()
                     } else {
-                        let start_idx = if start < 0 { 
-                            (len as isize + start).max(0) as usize
-                        } else {
-                            start as usize
-                        };
+                        // Resolve negative indexes against the length; a start before the first
+                        // element is clamped to 0, a stop before the first element selects nothing
+                        let len_i = len as isize;
+                        let start_i = if start < 0 { len_i.saturating_add(start).max(0) } else { start };
+                        let stop_i = if stop < 0 { len_i.saturating_add(stop) } else { stop };
                         
-                        let stop_idx = if stop < 0 {
-                            (len as isize + stop).max(0) as usize
+                        if stop_i < 0 || start_i >= len_i || start_i > stop_i {
+                            Vec::new()
                         } else {
-                            stop as usize
-                        };
-                        
-                        if reverse {
-                            let real_start = len.saturating_sub(1).saturating_sub(stop_idx.min(len.saturating_sub(1)));
-                            let real_stop = len.saturating_sub(1).saturating_sub(start_idx.min(len.saturating_sub(1)));
+                            let start_idx = start_i as usize;
+                            let stop_idx = (stop_i as usize).min(len - 1);
                             
-                            let range = skiplist.range_by_rank(real_start, real_stop);
-                            let mut items = range.items;
-                            items.reverse();
-                            items
-                        } else {
-                            if start_idx >= len || start_idx > stop_idx {
-                                Vec::new()
+                            if reverse {
+                                // Ranks count from the highest score
+                                let range = skiplist.range_by_rank(len - 1 - stop_idx, len - 1 - start_idx);
+                                let mut items = range.items;
+                                items.reverse();
+                                items
                             } else {
-                                let start_idx = start_idx.min(len - 1);
-                                let stop_idx = stop_idx.min(len - 1);
-                                
                                 let range = skiplist.range_by_rank(start_idx, stop_idx);
                                 range.items
                             }
@@ -949,6 +941,13 @@ impl StorageEngine {
                         Some(curr_score) => curr_score + increment,
                         None => increment,
                     };
+                    
+                    // inf + -inf: a score that is not a number is never stored
+                    if new_score.is_nan() {
+                        return Err(FerrousError::Command(CommandError::Generic(
+                            "resulting score is not a number (NaN)".to_string()
+                        )));
+                    }
                     
                     skiplist.insert(member, new_score);
                     shard_guard.mark_modified(&key);
